@@ -23,6 +23,7 @@ type PropMeta struct {
 	RaceFraction float64 // fraction of workers running the -race build
 	NonRootFraction float64 // fraction of workers that drop to uid 65534
 	NoMinimise   bool
+	MaxJobsPerWorker int // restart the worker process after this many jobs (0 = never)
 	EnumTotal    int // size of the sub-space the thorough tier enumerates completely (probe enum_cases)
 }
 
@@ -52,6 +53,18 @@ var Meta = map[string]PropMeta{
 		Quick:     q(600, 50*time.Second),
 		Thorough:  TierCfg{Runs: 31000, Budget: 40 * time.Minute, JobTimeout: 180 * time.Second},
 		EnumTotal: 30784,
+	},
+	"C20": {
+		Level:     "exploration",
+		Technique: "deterministic simulation as execution vehicle: the real daemon entry point (maincmd.Main through rsynccmd, listener hook under build tag verif) serves its SSH listeners on a simulated network inside the worker; golang.org/x/crypto/ssh clients connect with generated keys and send exec/shell/subsystem/pty/env requests and channel opens; canary ring and channel output as oracles",
+		Rule:      "auth mode: authorized_ssh listener with an authorized_keys file in one of 4 layouts (plain, comments and blank lines, options prefix and comment suffix, empty) listing a random subset of 2-5 generated keys of types ed25519/ecdsa-256/384/521/rsa-2048; every key connects: handshake must succeed iff the key is listed, and an admitted client gets the module listing through 'rsync --server --daemon .'. anon mode: anon_ssh listener with a writable module; 5 (thorough 12) sessions: the daemon invocation (3 spellings), shell/subsystem/pty-req, foreign channel types, and exec command lines from a 34-entry grammar (command-mode server on outside paths with and without --sender/--delete, client-mode local and remote transfers, -e/--rsh with a canary script, RSYNC_RSH via env, daemon flags, --version/--help, other programs, empty line). Oracle: every non-daemon command line ends with a non-zero exit status or a refused request/channel; no canary content on the channel; nothing created, changed, deleted or executed outside the module; no outside content copied into the module; the daemon invocation serves the listing. Non-trivial = every run",
+		Assumptions: []string{"input/configuration-quantified; SSH key exchange uses crypto/rand, so event logs (not verdicts) differ between runs", "built with the repository's nonamespacing tag and GOKRAZY_RSYNC_PRIVDROP=1 so that the daemon does not re-execute itself in a mount namespace; landlock relaxed through restrict.ExtraHook", "only the anonymous listener is held to 'daemon protocol only' (command mode is the documented use of the authorised one)"},
+		Real:      append([]string{"internal/anonssh", "internal/maincmd daemon branch", "internal/rsyncdconfig", "golang.org/x/crypto/ssh (server and client)"}, realCommon...), Stub: append([]string{"non-parking simulated connections (x/crypto/ssh holds a mutex across Write)"}, stubCommon...),
+		Quick:     q(60, 70*time.Second),
+		Thorough:  q(4000, 25*time.Minute),
+		ExtraTags: "nonamespacing",
+		Env:       []string{"GOKRAZY_RSYNC_PRIVDROP=1"},
+		MaxJobsPerWorker: 10,
 	},
 	"C02": {
 		Level:     "exploration",
